@@ -133,6 +133,34 @@ def check_sers(case, obs, tz, digests) -> List[tuple]:
     return bad
 
 
+def representation_updates() -> List[tuple]:
+    """A key overwritten with a value that compares equal but IS another value (another type, hence another record
+    text and another context digest: 3 -> 3.0, True -> 1.0, "3.0" -> 3.0) has been updated; a key overwritten with the
+    very same value has not.  (The models carry numbers as one sort, so this dimension is decided here: two nodes,
+    [source(v), probe -> a], over pairs (old value of a, v); -0.0 vs 0.0 is left unspecified.)"""
+    from ..traced import run_traced
+
+    bad: List[tuple] = []
+    pairs = [(3, 3.0, True), (3.0, 3.0, False), (1000, 1000.0, True), (True, 1.0, True), (1, 1.0, True), (0, 0.0, True),
+             ("3.0", 3.0, True), ([3.0], 3.0, True), (2 ** 53 + 1, float(2 ** 53), True), (2.5, 2.5, False), (None, 3.0, True)]
+    for old, new, changed in pairs:
+        nodes = [{"processor": "FloatValueDataSource", "parameters": {"value": new}},
+                 {"processor": "FloatCollectValueProbe", "context_key": "a"},
+                 {"processor": "FloatCollectValueProbe", "context_key": "a"}]       # the second probe rewrites the same value
+        for detail in ("hash", "all"):
+            obs = run_traced(nodes, None, {"a": old, "k": 7}, detail=detail)
+            sers = [r for r in obs["records"] if r.get("record_type") == "ser"]
+            if obs["raised"] is not None or len(sers) != 3:
+                continue    # stream shape / failures are C06's business
+            for i, want in ((1, ["a"] if changed else []), (2, [])):
+                cd = sers[i].get("context_delta", {})
+                if sorted(cd.get("updated_keys", [])) != want or cd.get("created_keys", []) != []:
+                    bad.append((f"updated:representation:{type(old).__name__}->{type(new).__name__}",
+                                f"context a={old!r} overwritten with {new!r} by node {i + 1}: SER says created={cd.get('created_keys')} "
+                                f"updated={cd.get('updated_keys')}, the actual difference is updated={want}"))
+    return bad
+
+
 def _freeze(x):
     if isinstance(x, dict):
         return tuple(sorted((k, _freeze(v)) for k, v in x.items()))
@@ -224,6 +252,8 @@ def check(tier: str) -> int:
         _replay(run, "TraceStream.full2.emit")
         _replay(run, "TraceStream.trace4.emit", timeout=3000)
         _replay(run, "TraceStream.sim.emit", simulate="num=15000", depth=24, seed=seed + 7, timeout=3000)
+    for key, msg in representation_updates():
+        run.violation(key, msg, {"representation": True})
     pp = run.extra.get("param_placements_checked", {})
     if not all(pp.get(k, 0) > 0 for k in ("node", "context", "default")):
         raise core.MachineryError(f"vacuity: parameter placements exercised: {pp}")
